@@ -2,11 +2,12 @@
    the correspondence runner.  Directives: those of ExtrOcamlBasic only; nat, positive, N, Z stay
    Coq's inductive types. *)
 From Coq Require Import Extraction ExtrOcamlBasic List NArith ZArith.
-From GmsmVerif Require Import Lib.Outcome X509.NameMatchSpec X509.PathSpec X509.VerifyModel X509.CreateRun X509.DerLayer X509.ExtModel.
+From GmsmVerif Require Import Lib.Outcome X509.NameMatchSpec X509.PathSpec X509.VerifyModel X509.CreateRun X509.DerLayer X509.ExtModel X509.CrlModel.
 Extraction Language OCaml.
 Extraction "x509_model.ml"
   Verify_model sigchecks_used VerifyHostname_model matchHostnames_model matchNameConstraint_model
   toLowerCaseASCII_model checkChainForKeyUsage_model AddCert_model contains_model mkCert mkOpts
   c09_lookup
   marshalSANs_model parseSANExtension_model build_eku parse_eku build_policies parse_policies
-  build_ski parse_ski build_aki parse_aki build_name_constraints parse_name_constraints.
+  build_ski parse_ski build_aki parse_aki build_name_constraints parse_name_constraints
+  read_tlv build_tbs_raw parse_tbs_raw revocation_list_exts create_crl_exts Z.add Z.mul Z.opp.
